@@ -46,12 +46,13 @@ for h in "$HERE"/harness/c/*.c; do
   b=$(basename "$h" .c)
   if [ ! -x "$S/harness/$b" ] || [ "$h" -nt "$S/harness/$b" ] || [ "$S/build/lib/libdbus-internal.a" -nt "$S/harness/$b" ] || [ "$S/build/lib/libdbus-daemon-internal.a" -nt "$S/harness/$b" ]; then
     LIBS="$S/build/lib/libdbus-internal.a -L$S/build/lib -ldbus-1 -Wl,-rpath,$S/build/lib"
+    case "$b" in connpair) LIBS="$S/build/lib/libdbus-testutils.a $S/build/lib/libdbus-internal.a -L$S/build/lib -ldbus-1 -Wl,-rpath,$S/build/lib";; esac
     case "$b" in bus*) LIBS="$S/build/lib/libdbus-daemon-internal.a $S/build/lib/libdbus-testutils.a $S/build/lib/libdbus-internal.a -L$S/build/lib -ldbus-1 -Wl,-rpath,$S/build/lib -lexpat";; esac
     gcc -fsanitize=address,undefined -fno-sanitize-recover=undefined -fno-omit-frame-pointer -O1 -g -Wno-deprecated-declarations \
-      -DDBUS_COMPILATION -DHAVE_CONFIG_H -I"$S/build" -I"$S/src" -I"$S/src/bus" \
+      -DDBUS_COMPILATION -DHAVE_CONFIG_H -I"$S/build" -I"$S/src" -I"$S/src/bus" -I"$S/src/test" \
       -o "$S/harness/$b" "$h" $LIBS -lpthread -lsystemd >>"$LOG" 2>&1 || \
     gcc -fsanitize=address,undefined -fno-sanitize-recover=undefined -fno-omit-frame-pointer -O1 -g -Wno-deprecated-declarations \
-      -DDBUS_COMPILATION -DHAVE_CONFIG_H -I"$S/build" -I"$S/src" -I"$S/src/bus" \
+      -DDBUS_COMPILATION -DHAVE_CONFIG_H -I"$S/build" -I"$S/src" -I"$S/src/bus" -I"$S/src/test" \
       -o "$S/harness/$b" "$h" $LIBS -lpthread >>"$LOG" 2>&1 || { echo "HARNESS BUILD FAILED ($b), see $LOG" >&2; tail -30 "$LOG" >&2; exit 2; }
   fi
 done
